@@ -11,8 +11,9 @@ from common import S, Err, Names, call_impl
 from recorder import Recorder, installed
 
 MODELLED = ["name_PL", "short_name_PL", "name_Cumulative", "name_BT", "from_point", "slate_PL", "slate_BT",
-            "AlternatingCrossover", "OneDimSpatial", "Spatial", "ClusteredSpatial", "name_BT_MCMC", "slate_BT_MCMC"]
-UNMODELLED = ["ImpartialCulture", "ImpartialAnonymousCulture", "CambridgeSampler"]
+            "AlternatingCrossover", "OneDimSpatial", "Spatial", "ClusteredSpatial", "name_BT_MCMC", "slate_BT_MCMC",
+            "ImpartialCulture", "ImpartialAnonymousCulture", "CambridgeSampler"]
+UNMODELLED = []
 SUP = [1.0, 2.0, 0.5, 0.25, 3.0, 4.0, 0.125, 8.0, 0.0]
 COH = {1: [[1.0]], 2: [[0.75, 0.25], [0.5, 0.5], [1.0, 0.0], [0.875, 0.125], [0.0, 1.0], [0.25, 0.75]],
        3: [[0.5, 0.25, 0.25], [0.75, 0.125, 0.125], [1.0, 0.0, 0.0], [0.25, 0.5, 0.25]]}
@@ -73,6 +74,13 @@ def gen_case(rng, gname=None):
         c["ballot_length"] = rng.randint(1, ncand)
     if gname == "name_Cumulative":
         c["num_votes"] = rng.randint(1, 4)
+    if gname == "CambridgeSampler" and rng.random() < 0.65:
+        # a small historical table of our own (passed through the documented `path` argument)
+        types = {"W", "C", "WC", "CW"} if rng.random() < 0.3 else {"W", "C"}
+        for _ in range(rng.randint(1, 6)):
+            types.add("".join(rng.choice("WC") for _ in range(rng.randint(1, 7))))
+        c["freqs"] = [[t, rng.choice([1, 1, 2, 3, 5, 10, 40])] for t in sorted(types)]
+        rng.shuffle(c["freqs"])
     return c
 
 
@@ -144,8 +152,26 @@ def build_generator(case):
         if g == "AlternatingCrossover":
             return bg.AlternatingCrossover(slate_to_candidates=case["slates"], **kw)
         if g == "CambridgeSampler":
+            if case.get("freqs"):
+                return bg.CambridgeSampler(slate_to_candidates=case["slates"], path=cambridge_pickle(case["freqs"]), **kw)
             return bg.CambridgeSampler(slate_to_candidates=case["slates"], **kw)
     raise ValueError(g)
+
+
+def cambridge_pickle(freqs):
+    """Write the case's historical table as the pickled dict CambridgeSampler reads; returns the path."""
+    import hashlib, json, os, pickle
+    from pathlib import Path
+    d = os.path.join(common.WORK, "cam")
+    os.makedirs(d, exist_ok=True)
+    h = hashlib.sha1(json.dumps(freqs).encode()).hexdigest()[:16]
+    path = os.path.join(d, h + ".p")
+    if not os.path.exists(path):
+        tmp = path + f".{os.getpid()}.tmp"
+        with open(tmp, "wb") as f:
+            pickle.dump({tuple(t): int(n) for t, n in freqs}, f)
+        os.replace(tmp, path)
+    return Path(path)
 
 
 class ApportionRecorder:
@@ -230,10 +256,32 @@ def round_calls(calls):
     for c in calls:
         if c[0] in (1, 3):
             out.append([c[0], S([[x[0], rnd9(x[1])] for x in c[1]]), c[2]])
-        elif c[0] in (4, 5):
+        elif c[0] in (4, 5, 8):
             out.append([c[0], S([[x[0], rnd9(x[1])] for x in c[1]]), c[2]])
         else:
             out.append(c)
+    return out
+
+
+def snap_calls(model_calls, expected_calls):
+    """Both sides carry probabilities rounded to 1e-9 (floats on the implementation side, exact
+    rationals on the model side); a value within 1e-13 of a rounding boundary can round differently.
+    Where the two rounded values differ by at most one unit the model's is replaced by the
+    implementation's, so that the comparison has a genuine tolerance instead of a rounding edge."""
+    if len(model_calls) != len(expected_calls):
+        return model_calls
+    out = []
+    for mc, ec in zip(model_calls, expected_calls):
+        if isinstance(mc, list) and isinstance(ec, list) and mc and ec and mc[0] == ec[0] and mc[0] in (1, 3, 4, 5, 8) \
+                and len(mc) == len(ec) and isinstance(mc[1], list) and isinstance(ec[1], list) and len(mc[1]) == len(ec[1]):
+            want = {repr(common.canon(x[0])): x[1] for x in ec[1]}
+            ent = []
+            for x in mc[1]:
+                w = want.get(repr(common.canon(x[0])))
+                ent.append([x[0], w] if w is not None and abs(w - x[1]) <= 1 else x)
+            out.append([mc[0], S(ent)] + list(mc[2:]))
+        else:
+            out.append(mc)
     return out
 
 
@@ -275,6 +323,20 @@ def model_call(case, run):
         arg = [[nm.id(c) for c in cs], [[Fraction(float(d)) for d in row] for row in dists]]
         return {"op": 102, "arg": arg, "expect": vk.profile_val(nm, run["out"]),
                 "what": f"{g}: ballots = candidates stably sorted by the recorded distances", "names": nm}
+    if g in ("ImpartialCulture", "ImpartialAnonymousCulture"):
+        cs = list(case["cands"])
+        nm = Names(cs)
+        perms_ = [list(p) for p in itertools.permutations(cs)]
+        e = [x for x in log if x["kind"] == "np_choice"][0]
+        res = np.array(e["result"], ndmin=1).tolist()
+        draws = [perms_[i] for i in res]
+        tbl_exact = [[[nm.id(c) for c in p], Fraction(float(x))] for p, x in zip(perms_, e["p"])]
+        tbl = [[[nm.id(c) for c in p], rnd9(x)] for p, x in zip(perms_, e["p"])]
+        arg = [[nm.id(c) for c in cs], tbl_exact, case["N"], [[nm.id(c) for c in d] for d in draws]]
+        return {"op": 105, "arg": arg, "expect": [vk.profile_val(nm, run["out"]), [[4, S(tbl), case["N"]]]],
+                "what": f"{g}: Dirichlet-drawn table over all permutations + ballot_pool_to_profile", "names": nm, "round": True}
+    if g == "CambridgeSampler":
+        return cambridge_call(case, run)
     if g == "from_point":
         cs = list(case["cands"])
         nm = Names(cs)
@@ -474,6 +536,82 @@ def model_call(case, run):
                 "what": "AlternatingCrossover: two Plackett-Luce draws per ballot (populations as coded), crossover/bloc-first assembly",
                 "names": nm, "round": True}
     return None
+
+
+HIST = {"W": 1, "C": 2}
+REST = 3          # marker label of the synthetic "all other types" entry of a compressed table
+
+
+def cambridge_call(case, run):
+    """CambridgeSampler: historical types from the two recorded random.choices calls per bloc, one
+    recorded Plackett-Luce order per ballot.  With the packaged Cambridge data (8559 types) the table
+    handed to the model is compressed: the types actually drawn are kept, all others with the same
+    first label are merged into one synthetic type [label, REST]; the recorded populations are
+    compressed the same way before comparison."""
+    g = run["gen"]
+    blocs = list(g.blocs)
+    cands = [c for b in case["blocs"] for c in case["slates"][b]]
+    nm = Names(cands)
+    bid = bloc_ids(case)
+    log = list(run["log"])
+    ap = run["apportion"][0]["result"]
+    import pickle
+    with open(g.path, "rb") as f:
+        table = pickle.load(f)
+    drawn = set()
+    for e in log:
+        if e["kind"] == "choices":
+            drawn.update(tuple(t) for t in e["result"])
+    compress = len(table) > 60
+
+    def tkey(t):
+        if compress and tuple(t) not in drawn:
+            return (HIST[t[0]], REST)
+        return tuple(HIST[x] for x in t)
+    freqs = {}
+    for t, n in table.items():
+        freqs[tkey(t)] = freqs.get(tkey(t), 0) + int(n)
+    farg = [[list(k), Fraction(v)] for k, v in freqs.items()]
+    barg, calls, li = [], [], 0
+    for i, b in enumerate(blocs):
+        opp = blocs[(i + 1) % 2]
+        nb, nc = ap[2 * i], ap[2 * i + 1]
+        coh = Fraction(case["cohesion"][b][b])
+        parts = [exact_interval(dict(d)) for d in case["intervals"][b].values()]
+        vals, zero = {}, []
+        for (iv, z), pr in zip(parts, [coh, 1 - coh]):
+            zero += z
+            for c, v in iv.items():
+                if pr == 0:
+                    zero.append(c)
+                else:
+                    vals[c] = v * pr
+        tot = sum(vals.values())
+        iv = {c: v / tot for c, v in vals.items()}
+        draws = []
+        types = []
+        for _ in range(2):
+            e = log[li]
+            li += 1
+            assert e["kind"] == "choices", e["kind"]
+            types += [tuple(t) for t in e["result"]]
+            w = {}
+            for t, x in zip(e["population"], e["weights"]):
+                w[tkey(t)] = w.get(tkey(t), 0.0) + float(x)
+            calls.append([8, S([[list(k), rnd9(x)] for k, x in w.items()]), e["k"]])
+        for t in types:
+            e = log[li]
+            li += 1
+            assert e["kind"] == "np_choice", e["kind"]
+            calls.append(call_val(nm, e))
+            draws.append([[HIST[x] for x in t], [nm.id(str(c)) for c in e["result"]]])
+        h_own, h_opp = HIST[g.bloc_to_historical[b]], HIST[g.bloc_to_historical[opp]]
+        barg.append([bid[b], pi_val(nm, iv, zero), h_own, h_opp, [nm.id(c) for c in case["slates"][b]],
+                     [nm.id(c) for c in case["slates"][opp]], nb, nc, draws])
+    # the model lists the calls bloc by bloc in the same order
+    return {"op": 106, "arg": [farg, barg], "expect": expected_gen(nm, case, run, calls),
+            "what": "CambridgeSampler: historical types (random.choices) filled with a Plackett-Luce order of the combined interval",
+            "names": nm, "round": True}
 
 
 ballots_calls = []
